@@ -159,7 +159,7 @@ func ruleP17ShiftTable(p *Prog, r *Report) {
 	sawFallthrough := false
 	for i, ret := range returnsOf(f) {
 		key := fmt.Sprintf("return#%d", i)
-		val, e := ret.Results[0], ret.Results[1]
+		val, e := retResult(ret, 0), retResult(ret, 1)
 		gs := guardsOf(ret.Block())
 		// classify guards
 		var posK []int64
@@ -262,7 +262,7 @@ func ruleP17AtDateTable(p *Prog, r *Report) {
 	seen := map[string]bool{}
 	for i, ret := range returnsOf(f) {
 		key := fmt.Sprintf("return#%d", i)
-		val := ret.Results[0]
+		val := retResult(ret, 0)
 		var pos []string
 		for _, g := range guardsOf(ret.Block()) {
 			if x, isNil, ok := nilFact(g); ok {
@@ -415,7 +415,7 @@ func (t *timeSeq) seqs(v ssa.Value, env map[*ssa.Parameter]ssa.Value, depth int)
 			var out []string
 			for _, ret := range returnsOf(callee) {
 				if len(ret.Results) >= 1 {
-					out = append(out, t.seqsWithEnv(ret.Results[0], e2, env, depth+1)...)
+					out = append(out, t.seqsWithEnv(retResult(ret, 0), e2, env, depth+1)...)
 				}
 			}
 			return uniq(out)
